@@ -800,13 +800,13 @@ class Interp:
                 # a method of the modelled class: evaluate its body
                 for c in self.ctx.prog.classes.values():
                     if c.name == base._cls and name in c.methods and not c.module.name.startswith('template:'):
-                        return self.call(c.methods[name], [base] + args, kwargs)
+                        return self.call(c.methods[name], self._bound(c.methods[name], base, args), kwargs)
                 if getattr(self, 'real_classes', False):
                     for c in self.ctx.prog.classes.values():
                         if c.name == base._cls and not c.module.name.startswith('template:'):
                             m0 = self.ctx.prog.find_method(c, name)
                             if m0 is not None:
-                                return self.call(m0, [base] + args, kwargs)
+                                return self.call(m0, self._bound(m0, base, args), kwargs)
                 raise Unsupported('method {} of {}'.format(name, base._cls))
             if self.set_order is not None and isinstance(base, set) and name == 'pop' and not args:
                 if not base:
@@ -914,6 +914,23 @@ class Interp:
                 keyf = kwargs.get('key', args[1] if len(args) == 2 else None)
                 kf = (lambda x: x) if keyf is None else (lambda x, keyf=keyf: self.apply(f, keyf, [x]))
                 return [(k0, list(g0)) for k0, g0 in itertools.groupby(list(self.iterate(args[0])), key=kf)]
+            if name in ('itertools.chain.from_iterable', 'chain.from_iterable') and len(args) == 1 and not kwargs:
+                out0 = []
+                for a0 in self.iterate(args[0]):
+                    out0.extend(list(self.iterate(a0)))
+                return out0
+            if short in ('map', 'filter') and name == short and len(args) == 2 and not kwargs and short not in env:
+                # evaluated eagerly: the functions mapped in the models have no effects whose order could matter
+                fn0, xs0 = args[0], list(self.iterate(args[1]))
+                if fn0 is None and short == 'filter':
+                    return [x0 for x0 in xs0 if self.truth(x0)]
+                if fn0 is str:
+                    ys0 = [str(self.objstr(x0)) for x0 in xs0]
+                elif callable(fn0) and not isinstance(fn0, tuple):
+                    ys0 = [fn0(x0) for x0 in xs0]
+                else:
+                    ys0 = [self.apply(f, fn0, [x0]) for x0 in xs0]
+                return ys0 if short == 'map' else [x0 for x0, y0 in zip(xs0, ys0) if self.truth(y0)]
             if name == 'itertools.chain':
                 out0 = []
                 for a0 in args:
@@ -977,6 +994,16 @@ class Interp:
 
     def _raise(self, name):
         raise Raised(name)
+
+    @staticmethod
+    def _bound(m, base, args):
+        """the argument list of a method call on an instance: a static method does not receive the instance"""
+        decos = [ast.unparse(d) for d in m.node.decorator_list]
+        if 'staticmethod' in decos:
+            return list(args)
+        if decos and any(d not in ('staticmethod',) for d in decos):
+            raise Unsupported('decorated method ' + m.name)
+        return [base] + list(args)
 
     # -- special methods of modelled classes -------------------------------------------------------------------------------
     def _dunder(self, o, name):
